@@ -9,6 +9,7 @@ import (
 
 	"github.com/unixpickle/model3d/model2d"
 	"github.com/unixpickle/model3d/model3d"
+	"github.com/unixpickle/model3d/numerical"
 	"github.com/unixpickle/model3d/render3d"
 	"verif/harness/hlib/go2lean"
 )
@@ -60,31 +61,49 @@ var kernelRecv = map[string]reflect.Type{
 	"render3d.RefractMaterial": reflect.TypeOf(render3d.RefractMaterial{}),
 	"render3d.PointLight":      reflect.TypeOf(render3d.PointLight{}),
 	"render3d.Camera":          reflect.TypeOf(render3d.Camera{}),
+	"numerical.Matrix2":        reflect.TypeOf(numerical.Matrix2{}),
+	"numerical.Matrix3":        reflect.TypeOf(numerical.Matrix3{}),
+	"numerical.Matrix4":        reflect.TypeOf(numerical.Matrix4{}),
+	"numerical.Vec2":           reflect.TypeOf(numerical.Vec2{}),
+	"numerical.Vec3":           reflect.TypeOf(numerical.Vec3{}),
+	"numerical.Vec4":           reflect.TypeOf(numerical.Vec4{}),
 }
 
 var kernelFree = map[string]interface{}{
-	"model3d.NewMatrix3Columns": model3d.NewMatrix3Columns,
-	"model3d.NewRect":           model3d.NewRect,
-	"model3d.NewSegment":        model3d.NewSegment,
-	"model3d.Ones":              model3d.Ones,
-	"model3d.X":                 model3d.X,
-	"model3d.XY":                model3d.XY,
-	"model3d.XYZ":               model3d.XYZ,
-	"model3d.XZ":                model3d.XZ,
-	"model3d.Y":                 model3d.Y,
-	"model3d.YZ":                model3d.YZ,
-	"model3d.Z":                 model3d.Z,
-	"model2d.NewCoordArray":     model2d.NewCoordArray,
-	"model2d.NewMatrix2Columns": model2d.NewMatrix2Columns,
-	"model2d.NewRect":           model2d.NewRect,
-	"model2d.Ones":              model2d.Ones,
-	"model2d.X":                 model2d.X,
-	"model2d.XY":                model2d.XY,
-	"model2d.Y":                 model2d.Y,
-	"render3d.NewCameraAt":      render3d.NewCameraAt,
-	"render3d.ClampColor":       render3d.ClampColor,
-	"render3d.NewColor":         render3d.NewColor,
-	"render3d.NewColorRGB":      render3d.NewColorRGB,
+	"model3d.NewMatrix3Columns":    model3d.NewMatrix3Columns,
+	"model3d.NewRect":              model3d.NewRect,
+	"model3d.NewSegment":           model3d.NewSegment,
+	"model3d.Ones":                 model3d.Ones,
+	"model3d.X":                    model3d.X,
+	"model3d.XY":                   model3d.XY,
+	"model3d.XYZ":                  model3d.XYZ,
+	"model3d.XZ":                   model3d.XZ,
+	"model3d.Y":                    model3d.Y,
+	"model3d.YZ":                   model3d.YZ,
+	"model3d.Z":                    model3d.Z,
+	"model2d.NewCoordArray":        model2d.NewCoordArray,
+	"model2d.NewMatrix2Columns":    model2d.NewMatrix2Columns,
+	"model2d.NewRect":              model2d.NewRect,
+	"model2d.Ones":                 model2d.Ones,
+	"model2d.X":                    model2d.X,
+	"model2d.XY":                   model2d.XY,
+	"model2d.Y":                    model2d.Y,
+	"render3d.NewCameraAt":         render3d.NewCameraAt,
+	"render3d.ClampColor":          render3d.ClampColor,
+	"render3d.NewColor":            render3d.NewColor,
+	"render3d.NewColorRGB":         render3d.NewColorRGB,
+	"numerical.NewMatrix2Columns":  numerical.NewMatrix2Columns,
+	"numerical.NewMatrix3Columns":  numerical.NewMatrix3Columns,
+	"numerical.NewMatrix4Identity": numerical.NewMatrix4Identity,
+}
+
+func kernelHook(name string) (interface{}, bool) {
+	for _, m := range []map[string]interface{}{model3d.VerifKernelFuncs, model2d.VerifKernelFuncs, render3d.VerifKernelFuncs} {
+		if f, ok := m[name]; ok {
+			return f, true
+		}
+	}
+	return nil, false
 }
 
 // fill sets the float64 leaves of v (addressable) from xs, in Go field order.
@@ -97,6 +116,12 @@ func fill(v reflect.Value, xs *[]float64) bool {
 		v.SetFloat((*xs)[0])
 		*xs = (*xs)[1:]
 		return true
+	case reflect.Ptr:
+		if !v.CanSet() {
+			return false
+		}
+		v.Set(reflect.New(v.Type().Elem()))
+		return fill(v.Elem(), xs)
 	case reflect.Bool:
 		return false // boolean inputs are not part of the flattened float interface
 	case reflect.Struct:
@@ -172,7 +197,10 @@ func callKernel(e go2lean.TableEntry, xs []float64) (out []float64, ok bool) {
 	rest := append([]float64{}, xs...)
 	var fn reflect.Value
 	var recvPtr reflect.Value
-	if e.Root.Recv == "" {
+	if hook, isHook := kernelHook(e.Root.String()); isHook && !e.Mutates {
+		// unexported function/method exported through the verif hooks (methods as method expressions)
+		fn = reflect.ValueOf(hook)
+	} else if e.Root.Recv == "" {
 		f, found := kernelFree[e.Root.Dir+"."+e.Root.Name]
 		if !found {
 			return nil, false
